@@ -46,10 +46,12 @@ import io
 import json
 import logging
 import os
+import queue
 import shutil
 import sys
 import tempfile
 import threading as _real_threading
+import _thread
 import time as _real_time
 from pathlib import Path
 from typing import Any, Dict, List, Optional, Sequence, Tuple
@@ -119,11 +121,28 @@ class Abort(BaseException):
     """raised inside a gated thread to unwind it when a case is torn down"""
 
 
+def fast_tmp() -> None:
+    """Every case creates and removes a directory tree and (QL) a NamedTemporaryFile; on the disk behind /tmp that
+    costs ~10 ms per case, more than the case itself.  Where a memory file system is mounted the process-wide default
+    of `tempfile` (what TMPDIR would set; the code under test uses the same default) is pointed at it."""
+    if os.environ.get("TMPDIR") or tempfile.tempdir:
+        return
+    shm = "/dev/shm"
+    try:
+        if os.path.isdir(shm) and os.access(shm, os.W_OK | os.X_OK):
+            with tempfile.TemporaryDirectory(prefix="pyrtma_verif_probe_", dir=shm):
+                pass
+            tempfile.tempdir = shm
+    except OSError:
+        pass
+
+
 def env() -> Dict[str, Any]:
     """Import the code under test once per process, write the message definitions module."""
     if _ENV:
         return _ENV
     C.use_repo()
+    fast_tmp()
     import pyrtma
     import pyrtma.data_logger  # noqa: F401  (registers the formatters)
     from pyrtma.data_logger import data_collection as dcm
@@ -194,15 +213,57 @@ def key_of(msg) -> Tuple[bytes, bytes]:
 # ------------------------------------------------------------------------------------------------
 
 class Controller:
+    """Hands the processor to exactly one gated thread at a time.
+
+    Two modes.  *park* (set-up and tear-down): a thread arriving at a gate reports to the main thread and waits to be
+    released.  *auto* (`run`): the arriving thread itself reads the next letter of the schedule; if it is its own it
+    simply goes on, otherwise it releases the other thread and parks.  So a run of k equal letters costs no thread
+    switch at all and an alternation one switch per step (the former design had a third, controlling thread and
+    two switches per step); the trace and the meaning of a schedule are the same: a step of a thread = the gate it is
+    parked at plus all code up to its next gate, and a letter naming a finished thread is skipped."""
+
     def __init__(self):
-        self.arrive = _real_threading.Semaphore(0)
-        self.go = {"R": _real_threading.Semaphore(0), "W": _real_threading.Semaphore(0)}
+        self.arrive: "queue.SimpleQueue[None]" = queue.SimpleQueue()
+        self.go = {"R": _thread.allocate_lock(), "W": _thread.allocate_lock()}
+        for l in self.go.values():
+            l.acquire()                      # binary semaphores, initially 0
+        self.done = _thread.allocate_lock()
+        self.done.acquire()
         self.at: Dict[str, Any] = {}
         self.tid_of: Dict[int, str] = {}
         self.free = False
         self.abort = False
+        self.auto = False
+        self.progress = 0
         self.exc: Dict[str, BaseException] = {}
         self.names: Dict[int, str] = {}
+        self._sched: Any = iter(())
+        self._stop: Any = None
+        self._trace: List[str] = []
+
+    def _pick(self) -> Optional[str]:
+        """next thread to run according to the schedule (None: schedule exhausted or the stop condition holds)"""
+        for t in self._sched:
+            if self._stop():
+                return None
+            if self.at.get(t) == "finished":
+                continue
+            self._trace.append(f"{t}:{self.label(t)}")
+            self.progress += 1
+            return t
+        return None
+
+    def _hand_over(self, me: Optional[str]) -> bool:
+        """called by the only running thread; True = `me` itself continues"""
+        n = self._pick()
+        if n is not None and n == me:
+            return True
+        if n is None:
+            self.auto = False
+            self.done.release()
+        else:
+            self.go[n].release()
+        return False
 
     def gate(self, what: Any):
         t = self.tid_of.get(_real_threading.get_ident())
@@ -213,18 +274,27 @@ class Controller:
         if self.free:
             return
         self.at[t] = what
-        self.arrive.release()
+        if self.auto:
+            if self._hand_over(t):
+                return
+        else:
+            self.arrive.put(None)
         self.go[t].acquire()
         if self.abort:
             raise Abort()
 
     def finish(self, t: str):
         self.at[t] = "finished"
-        self.arrive.release()
+        if self.auto:
+            self._hand_over(None)
+        else:
+            self.arrive.put(None)
 
     def wait_arrival(self):
-        if not self.arrive.acquire(timeout=30):
-            raise C.MachineryError("gated thread did not reach its next gate within 30 s")
+        try:
+            self.arrive.get(timeout=30)
+        except queue.Empty:
+            raise C.MachineryError("gated thread did not reach its next gate within 30 s") from None
 
     def label(self, t: str) -> str:
         w = self.at[t]
@@ -234,13 +304,19 @@ class Controller:
             return f"{w[0]}{w[1]}"
         return str(w)
 
-    def step(self, t: str) -> Optional[str]:
-        if self.at.get(t) == "finished":
-            return None
-        lab = self.label(t)
-        self.go[t].release()
-        self.wait_arrival()
-        return lab
+    def run(self, sched, stop, trace: List[str]):
+        """all gated threads are parked; execute `sched` (an iterable over "R"/"W") until it is exhausted or `stop()`
+        holds before a step; on return every unfinished thread is parked at a gate again"""
+        self._sched, self._stop, self._trace = iter(sched), stop, trace
+        self.auto = True
+        if self._hand_over(None):
+            raise C.MachineryError("controller: impossible hand-over")
+        last = -1
+        while not self.done.acquire(timeout=30):
+            if self.progress == last:
+                self.auto = False
+                raise C.MachineryError("gated thread did not reach its next gate within 30 s")
+            last = self.progress
 
 
 class ShimThreading:
@@ -492,12 +568,7 @@ def run_sched_case(case: Dict[str, Any]) -> Dict[str, Any]:
         rt.start()
         ctl.wait_arrival()
         sched = list(case["sched"]) + ["R", "W"] * (tail_len(case) // 2)
-        for t in sched:
-            if ctl.at.get("R") == "finished":
-                break
-            lab = ctl.step(t)
-            if lab is not None:
-                obs["trace"].append(f"{t}:{lab}")
+        ctl.run(sched, lambda: ctl.at.get("R") == "finished", obs["trace"])
         obs["warn"] = wc.n
         obs["wdead"] = 1 if ctl.at.get("W") == "finished" else 0
         if "W" in ctl.exc:
